@@ -151,8 +151,8 @@ def check(src, rep):
                 rep.violation("R3", "cosem.DateTime", f"sentinel:{nm}", f"`{nm}` has no adapter: the 'not specified' value is not mapped to None", file, s.line)
             continue
         dec = s.a["decoder"]
-        if not (isinstance(dec, Expr) and isinstance(dec.node, ast.Lambda)):
-            raise Undecided(f"decoder of {nm} is not a lambda")
+        if not (isinstance(dec, Expr) and isinstance(dec.node, (ast.Lambda, ast.FunctionDef))):
+            raise Undecided(f"decoder of {nm} is not a lambda or a named function")
         try:
             got_s = le.call_lambda(dec.node, [sentinel, Ctx()], "cosem")
             wrong = [(v, le.call_lambda(dec.node, [v, Ctx()], "cosem")) for v in samples]
@@ -222,8 +222,8 @@ def check(src, rep):
 
 def _computed(rep, le, comp, file):
     lam = comp.a["expr"]
-    if not (isinstance(lam, Expr) and isinstance(lam.node, ast.Lambda)):
-        raise Undecided("datetime member is not Computed(lambda)")
+    if not (isinstance(lam, Expr) and isinstance(lam.node, (ast.Lambda, ast.FunctionDef))):
+        raise Undecided("datetime member is not Computed(lambda / named function)")
     bad = 0
     n = 0
     for hund in (None, 0, 1, 50, 99):
